@@ -69,6 +69,16 @@ CLAIMED = {
          "separable measurements satisfy the level-1 and level-2 symmetric-extension constraints; checker soundness; the Bell ensemble has PPT value exactly 1/2 (both certificates by kernel evaluation). Per run: 2..4 states on 2x2 and 2x3, both forms, either party inside certified intervals; hierarchy level 1 = PPT, "
          "level 2 <= level 1, >= product-measurement value; caller's list unchanged.",
          "Trusted: Lean kernel + standard axioms; Python harness; tau 2e-5 (CVXOPT) / 1e-3 (SCS hierarchy). Cited: PPT = separable on 2x2 and 2x3 (used for one ordering check). CVXOPT breaks down (ArithmeticError) on about half of the primal PPT programs: counted, not judged."),
+ "C09": ("Lean 4 theorems (unentangled value = max over answer functions of lambda_max; hedging/cloning weak duality incl. two repetitions; deterministic strategies embed in the non-signalling program) + verified lambda_max and hedging certificate checkers",
+         "Kernel-checked: a bound holds for every deterministic strategy and referee state iff it dominates the averaged operator of every pair of answer functions; lambda_max enclosure by certificates; partial-trace adjointness; weak duality of the hedging max/min programs and of cloning for any arrangement of tensor factors "
+         "(covers toqito's n = 2 ordering, whose reindexings are proved to be permutations); min <= max; checker soundness. Per run: random asymmetric extended games (referee dim 2-3, alphabets 1..3, real/complex) with the unentangled value inside the certified interval of the best function pair; ordering "
+         "unentangled <= NPA(1,2) <= non-signalling and see-saw <= NPA on returned floats; all four hedging programs and both cloning programs inside certified intervals for n = 1, 2; closed forms 3/4, 9/16, cos^2(pi/8), 0.",
+         "Trusted: Lean kernel + standard axioms; Python harness; tau 1e-3 (SCS). Not modelled: the NPA relaxation itself (ordering checked numerically); non-signalling value not certified by duality; convexity reduction of randomised strategies cited."),
+ "C13": ("Lean 4 theorems on variational definitions (trace norm, fidelity SDP pair, Matsumoto restriction) incl. metric laws + verified certificate checkers and exact evaluators; toqito's values must lie in certified enclosures",
+         "Kernel-checked: trace-norm weak duality and both checker soundness theorems; trace distance symmetric, unitarily invariant, triangle inequality, zero iff equal (so a metric), <= 1, = 1 on orthogonal supports; Helstrom-Holevo in [1/2, 1]; fidelity weak duality, symmetry, unitary invariance, F(rho,rho) = tr rho, "
+         "0 <= F <= 1, = 0 on orthogonal supports; Matsumoto <= F; exact Hilbert-Schmidt / inner product / sub-fidelity radicand evaluators bridged to Mathlib traces. Per run: rational density pairs/triples (dim 2-6, every rank, real/complex, pure/commuting/orthogonal/nearly equal) with certified intervals of width ~1e-9; "
+         "every metric function within 1e-8 of its enclosure; inequalities and invariances on outputs; rejection of non-density inputs; fidelity of separability of pure product states = 1.",
+         "Trusted: Lean kernel + standard axioms; Python harness (mpmath for certificate candidates, untrusted). Cited: SDP optimum = tr sqrt(sqrt rho sigma sqrt rho); Fuchs-van de Graaf; E <= F^2; Bures closed forms as monotone functions of F. Known finding: hilbert_schmidt returns the squared spectral norm."),
 }
 PENDING_REASON = "check not built yet in this round (work in progress; see DESIGN.md section 7 for the plan)"
 
